@@ -337,6 +337,13 @@ func (fr *Frame) callStatic(fn *ssa.Function, bindings []Term, args []Term, sig 
 		return res
 	}
 	fc := g.W.contracts[key]
+	if fc != nil && fc.CallsArg > 0 && fc.CallsArg-1 < len(args) {
+		if ycl, ok := g.closures[args[fc.CallsArg-1].S]; ok {
+			fr.seqCall(fc, key, ycl, c, ins)
+			return fr.freshResults(sig, key)
+		}
+		g.fail("calls-arg contract of %s: argument %d is not a function literal of the caller", key, fc.CallsArg-1)
+	}
 	if fc != nil && !fc.Inline {
 		var pts []types.Type
 		for _, p := range fn.Params {
@@ -1428,8 +1435,11 @@ func (fr *Frame) monitorCheck(m *FuncContract, obj Term, c *blockCtx, phase stri
 func (fr *Frame) seqCall(sfc *FuncContract, skey string, cl *closureVal, c *blockCtx, ins ssa.Instruction) {
 	g := fr.g
 	yfc := g.W.contracts[funcKey(cl.fn)]
-	if yfc == nil || len(yfc.YieldInvs) == 0 {
+	if (yfc == nil || len(yfc.YieldInvs) == 0) && sfc.CallsArg == 0 {
 		g.fail("range over %s in %s: the loop body %s has no yield invariant", skey, funcKey(fr.fn), funcKey(cl.fn))
+	}
+	if yfc == nil {
+		yfc = &FuncContract{}
 	}
 	g.usedAssumed[skey] = true
 	fr.callOrd["seq"]++
@@ -1507,7 +1517,7 @@ func (fr *Frame) seqCall(sfc *FuncContract, skey string, cl *closureVal, c *bloc
 		g.sc.Assume(implies(c.reach, yenv.trBool(y.E)))
 	}
 	body := &blockCtx{st: hst.clone(), reach: c.reach}
-	res := fr.callStatic(cl.fn, cl.bindings, ys, cl.fn.Signature, body, ins)
+	res := fr.inline(cl.fn, cl.bindings, ys, body, ins) // the body itself, whatever contract the literal may have
 	more := "true"
 	if len(res) > 0 {
 		more = res[0].S
@@ -1558,7 +1568,7 @@ func (fr *Frame) dryRunCall(cl *closureVal, mkArgs func() []Term, c *blockCtx, i
 			}
 		}()
 		run := &blockCtx{st: c.st.clone(), reach: c.reach}
-		fr.callStatic(cl.fn, cl.bindings, mkArgs(), cl.fn.Signature, run, ins)
+		fr.inline(cl.fn, cl.bindings, mkArgs(), run, ins)
 	}()
 	g.dry--
 	g.wlog = prevLog
